@@ -623,13 +623,14 @@ def _fallback():
 # --------------------------------------------------------------------------
 
 def gen_rl_policy(rng):
-    t = rng.choice(["token", "leaky", "sliding", "fixed", "adaptive"])
+    t = rng.choice(["token", "leaky", "leaky", "sliding", "fixed", "adaptive"])
     if t == "token":
         cap = rng.choice([1.0, 2.0, 5.0])
-        return {"type": t, "capacity": cap, "rate": rng.choice([1.0, 3.0, 7.0, 10.0, 100.0]),
+        return {"type": t, "capacity": cap, "rate": rng.choice([1.0, 3.0, 6.0, 7.0, 30.0, 10.0, 100.0]),
                 "initial": rng.choice([None, 0.0, cap])}
     if t == "leaky":
-        return {"type": t, "rate": rng.choice([1.0, 3.0, 7.0, 10.0, 100.0])}
+        # leak rates whose interval 1/rate is truncated in nanoseconds (3, 6, 7, 9, 30, 60 ... per second) and exact ones
+        return {"type": t, "rate": rng.choice([3.0, 6.0, 7.0, 9.0, 30.0, 60.0, 150.0, 300.0, 1.0, 10.0, 100.0])}
     if t in ("sliding", "fixed"):
         return {"type": t, "window": rng.choice([0.01, 0.05, 0.1, 0.3, 0.7, 1.0]), "max": rng.randint(1, 4),
                 "n": rng.randint(1, 4)}
@@ -649,6 +650,12 @@ def _rl():
         p = gen_rl_policy(rng)
         c = flow_cfg(rng, marks=rl_marks(p), span=rng.choice([0.05, 0.3, 1.0]))
         c.update(policy=p, qcap=rng.choice([0, 1, 5, 1000]), null_first=rng.random() < 0.6)
+        if p["type"] in ("leaky", "token") and rng.random() < 0.7:
+            # a burst above the rate with room in the queue: requests are queued and the entity polls the policy at
+            # exactly the instant the policy announced
+            c["qcap"] = rng.choice([5, 1000])
+            c["arr"], c["tags"] = arrivals(rng, rng.randint(10, 30), rng.choice([0.02, 0.1]), rl_marks(p))
+            c["tags"] = c["tags"] + ["burst_above_rate"]
         return c
 
     def build(z, c):
